@@ -127,6 +127,9 @@ func c06Ops() []c06Op {
 			c06Op{"Add" + h.name + "(non-ASCII)", func(m *mail.Msg) error { return h.add(m, c06A2.str()) }, appendTo(h.name, c06A2)},
 			c06Op{"Add" + h.name + "(percent, plus)", func(m *mail.Msg) error { return h.add(m, "user%25+x%v@x.example") }, appendTo(h.name, na{"", "user%25+x%v@x.example"})},
 			c06Op{"Add" + h.name + "(duplicate plain)", func(m *mail.Msg) error { return h.add(m, c06A0.str()) }, appendTo(h.name, c06A0)},
+			// local parts that are only the same mailbox as long as they stay quoted (leading / trailing blank, blank inside, a comma)
+			c06Op{"Add" + h.name + "(quoted local part with leading blank)", func(m *mail.Msg) error { return h.add(m, `" lead"@x.example`) }, appendTo(h.name, na{"", " lead@x.example"})},
+			c06Op{"Add" + h.name + "(quoted local part with trailing blank and comma)", func(m *mail.Msg) error { return h.add(m, `"trail, "@x.example`) }, appendTo(h.name, na{"", "trail, @x.example"})},
 			c06Op{"Add" + h.name + "(invalid)", func(m *mail.Msg) error { return h.add(m, c06Bad) }, resync},
 			c06Op{"Add" + h.name + "Format(comma name)", func(m *mail.Msg) error { return h.addFmt(m, "Roe, Jane", "jane@x.example") }, appendTo(h.name, na{"Roe, Jane", "jane@x.example"})},
 			c06Op{"Add" + h.name + "Format(name with blank runs)", func(m *mail.Msg) error { return h.addFmt(m, "Ann   Smith  (R&D)", "ann@x.example") }, appendTo(h.name, na{"Ann   Smith  (R&D)", "ann@x.example"})},
